@@ -253,3 +253,45 @@ Definition complete_class (ifs : iftab) (h : list iter) : bool :=
 
 Definition is_complete_fail (f : BrowserSpec.fail) : bool :=
   match f with BrowserSpec.F04_complete _ _ _ _ _ => true | _ => false end.
+
+(* C04-found-withdrawn-in-same-message (round 9): a PTR record is reported new (ServiceFound) and a
+   later record of the same message leaves no PTR record of that name to that instance with more
+   than a second left (its goodbye follows in the same packet): resolve_updated_instances skips it,
+   no follow-up series is started.  Evaluated along the model's run. *)
+Definition found_withdrawn (c1 : cache) (now : N) (o1 : list out) : bool :=
+  existsb (fun x => match x with
+                    | OEvt _ (EFound ty i) =>
+                      negb (match bm_get ty (c_ptr c1) with
+                            | Some b => existsb (fun p => beq (alias_of (e_rr p)) i && negb (expires_soon p now)) b
+                            | None => false
+                            end)
+                    | _ => false
+                    end) o1.
+
+Definition read_found_withdrawn (ifs : iftab) (s : st) (now : N) (d : dgram) : bool :=
+  match accepted_msg ifs d with
+  | Some m =>
+    let '(c1, o1, _) := hr_records (s_cache s) now (d_if d) (s_q s) (for_us (s_q s) (m_answers m))
+                                   (m_answers m ++ m_authorities m ++ m_additionals m) in
+    found_withdrawn c1 now o1
+  | None => false
+  end.
+
+Fixpoint reads_found_withdrawn (ifs : iftab) (s : st) (now : N) (ds : list dgram) : bool :=
+  match ds with
+  | [] => false
+  | d :: t => read_found_withdrawn ifs s now d || reads_found_withdrawn ifs (fst (handle_read ifs s now d)) now t
+  end.
+
+Fixpoint known_found_withdrawn_from (ifs : iftab) (s : st) (h : list iter) : bool :=
+  match h with
+  | [] => false
+  | it :: t =>
+    reads_found_withdrawn ifs s (i_now it) (deliveries_in_order (i_dgrams it))
+    || known_found_withdrawn_from ifs (fst (iterate ifs s it)) t
+  end.
+
+Definition known_found_withdrawn (ifs : iftab) (h : list iter) : bool := known_found_withdrawn_from ifs init_st h.
+
+Definition is_followup_fail (f : BrowserSpec.fail) : bool :=
+  match f with BrowserSpec.F04_followup _ _ _ => true | _ => false end.
